@@ -312,8 +312,9 @@ def correct_names(name, val):
     :param val: the variable name we are modifying
     :return: the new name to use
     """
-    prefix = "_" + name
-    if val.startswith(prefix):
+    # only the private form _<Class>__<name>: _Active or _A_size of a class A are names of their own
+    prefix = "_" + name.lstrip("_")
+    if val.startswith(prefix + "__"):
         return val[len(prefix):]
     return val
 
